@@ -119,8 +119,17 @@ func cmdCheck(args []string) {
 	// functions serving the property
 	var fns []string
 	var assumedFns []string
+	// "Also" (levels.json): properties whose clauses this property's statement presupposes for functions outside its own
+	// cone (C07 speaks about everything the parsers emit, so it rests on the well-formedness clauses C02 of every
+	// parser): their functions join the roots and their clauses are discharged like support clauses.
+	also := alsoProps(*verif, *prop)
 	for k, c := range w.Contracts {
-		if !contractProps(c)[*prop] {
+		cp := contractProps(c)
+		sel := cp[*prop]
+		for _, a := range also {
+			sel = sel || cp[a]
+		}
+		if !sel {
 			continue
 		}
 		if c.Assumed || w.Decls[k] == nil || w.Decls[k].Body == nil {
@@ -131,7 +140,7 @@ func cmdCheck(args []string) {
 	}
 	sort.Strings(fns)
 	sort.Strings(assumedFns)
-	support := supportProps(*verif, *prop)
+	support := append(supportProps(*verif, *prop), also...)
 	var obls []*vc.Obligation
 	results := map[string]*vc.FuncResult{}
 	type viol struct {
@@ -435,7 +444,7 @@ func cmdCheck(args []string) {
 			"checker_cmd":  fmt.Sprintf("bin/lzvc check -prop %s -tier %s (VCs generated from %s, discharged by z3-new/z3/cvc5, %s per solver)", *prop, *tier, *repo, timeout),
 			"trusted_base": trusted, "functions_under_contract": fns, "callees_checked_for_runtime_panics": calleeFns, "obligations_by_class": byClass,
 			"discharged_by_solver": bySolver, "solver_seconds": round3(solverSecs), "vcgen_seconds": round3(genSecs),
-			"support_properties_rechecked_in_cone": support, "loops_without_variant": dedupStrs(noTerm), "explicit_assumes": assumes, "expected_clause_obligations": len(expected),
+			"support_properties_rechecked_in_cone": support, "presupposed_properties_rechecked": also, "loops_without_variant": dedupStrs(noTerm), "explicit_assumes": assumes, "expected_clause_obligations": len(expected),
 			"known_findings_hit": knownHit, "samples": samples,
 			"evaluations": len(obls), "distinct_nontrivial": discharged,
 			"rule":        "one SMT query per generated obligation; an obligation is non-trivial when its goal is not syntactically true (all generated obligations are)",
@@ -483,6 +492,18 @@ func supportProps(verif, prop string) []string {
 		return nil
 	}
 	return lv[prop].Support
+}
+
+func alsoProps(verif, prop string) []string {
+	b, err := os.ReadFile(filepath.Join(verif, "levels.json"))
+	if err != nil {
+		return nil
+	}
+	var lv map[string]struct{ Also []string }
+	if json.Unmarshal(b, &lv) != nil {
+		return nil
+	}
+	return lv[prop].Also
 }
 
 func hasAnyProp(props, any []string) bool {
